@@ -94,7 +94,7 @@ func NewGen(seed int64, p *Profile) *Gen {
 	}
 	perm := g.r.Perm(len(names))
 	for i := 0; i < p.Colls && i < len(names); i++ {
-		g.colls = append(g.colls, names[perm[i]])
+		g.colls = append(g.colls, escName(names[perm[i]]))
 	}
 	n := p.MaxDocs
 	pool := append([]string{}, uuidPool...)
